@@ -103,7 +103,7 @@ def run_case(ctx, idx, rng, tier):
     dev = gen.gen_device(rng, xy=xy, p_builtin=0.2, p_physical=0.1, max_seq=0.0, want_eom=0.45)
     if dev["kind"] == "builtin" and dev["name"] == "AnalogDevice":
         dev = {"kind": "builtin", "name": "MockDevice"}
-    reg = gen.gen_register(rng, dev, nmin=1, nmax=4, kind="reg")
+    reg = gen.gen_register(rng, dev, nmin=1, nmax=4, kind="reg", ids=gen.pick(rng, ["str", "str", "int", "int-permuted"]))
     r = prog.Runner(ctx, dev, reg, [])
     g = gen.ProgGen(rng, dev, reg, r.chspecs, weights=WEIGHTS, max_channels=4)
     feats = set()
